@@ -179,7 +179,7 @@ pub fn run(ctx: &Ctx) -> ! {
     let mut rep = Report::new(
         ctx,
         "fault_enumeration",
-        "both clients (blocking ureq; async reqwest on a tokio runtime) against a hand-written loopback HTTP/1.1 peer. Request side: requests x payload {none, 1 B, 70 000 B, 70 000 B from a blocking source that reports Interrupted three times (, 3 MiB from a fragmenting source)} x client configuration {none, 1-3 custom headers incl. user-agent override, basic auth with 4 credential shapes} x target path {/, /printers/x, /a%20b?q=1&r=2} x scheme {http, ipp} -> exactly one connection, POST, exact target, Host, content-type, headers, Basic credentials, body = request + payload (decoded by R1). Response side: responses x trailing data {none, 3 B, 70 000 B} x framing {content-length, chunked, close-delimited} x write plan {one write, one byte per write, EVERY two-piece split}. Failures: every HTTP status 400-599 with and without an IPP body; connection cut after EVERY offset of header+attributes under each framing and inside the HTTP head; stalled server with and without request_timeout. Concurrency: N = 2, 3 (4) senders through one client, the peer collects all N requests and answers in EVERY one of the N! orders. distinct = exchange script; non-trivial = exchange with a fault, fragmentation or non-default configuration",
+        "both clients (blocking ureq; async reqwest on a tokio runtime) against a hand-written loopback HTTP/1.1 peer. Request side: requests x payload {none, 1 B, 70 000 B, 70 000 B from a blocking source that reports Interrupted three times (, 3 MiB from a fragmenting source)} x client configuration {none, 1-3 custom headers incl. user-agent override, basic auth with 4 credential shapes} x target path {/, /printers/x, /a%20b?q=1&r=2} x scheme {http, ipp} -> exactly one connection, POST, exact target, Host, content-type, headers, Basic credentials, body = request + payload (decoded by R1). Response side: responses x trailing data {none, 3 B, 70 000 B} x framing {content-length, chunked, close-delimited} x write plan {one write, one byte per write, EVERY two-piece split}. Failures: every HTTP status 400-599 with and without an IPP body; connection cut after EVERY offset of header+attributes under each framing and inside the HTTP head; stalled server with and without request_timeout. History: two sequential sends through one client value with the first exchange ending in 8 different ways (ok, 500, 404 with IPP body, cut in attributes, cut in head, chunked, close-delimited, IPP error status): the second must be one fresh POST with its own response. Concurrency: N = 2, 3 (4) senders through one client, the peer collects all N requests and answers in EVERY one of the N! orders. distinct = exchange script; non-trivial = exchange with a fault, fragmentation or non-default configuration",
     );
     rep.assume("interleavings inside hyper / tokio / ureq are not under a controlled scheduler; send(&self) builds a fresh agent and connection per call, so the only cross-request channel is the peer's answer order, which is enumerated");
     rep.assume("verdicts depend only on outcome classes that are stable under TCP coalescing");
@@ -462,6 +462,48 @@ pub fn run(ctx: &Ctx) -> ! {
     rep.section("stalls-and-timeouts", s);
     eprintln!("  elapsed {:?}", rep.start.elapsed());
 
+    // ---------------- (5b) history: two sends through ONE client value, the first one ending in every way
+    let mut s = Stats::new();
+    {
+        let good = r1::encode(&resps[0].1);
+        let firsts: Vec<(&'static str, Script)> = vec![
+            ("ok", Script::ok(good.clone())),
+            ("http-500", Script { status: 500, ..Script::ok(vec![]) }),
+            ("http-404-with-ipp-body", Script { status: 404, ..Script::ok(good.clone()) }),
+            ("cut-mid-attributes", Script { cut_after: Some(good.len() / 2), ..Script::ok(good.clone()) }),
+            ("cut-in-head", Script { cut_in_head: Some(9), ..Script::ok(good.clone()) }),
+            ("chunked-ok", Script { framing: Framing::Chunked, ..Script::ok(good.clone()) }),
+            ("close-delimited-ok", Script { framing: Framing::Close, ..Script::ok(good.clone()) }),
+            ("ipp-error-status", Script::ok(r1::encode(&resps.iter().find(|r| r.0 == "error-response").map(|r| r.1.clone()).unwrap_or_else(|| resps[0].1.clone())))),
+        ];
+        let mut hist_cases: Vec<(ClientKind, usize)> = vec![];
+        for kind in kinds {
+            for f in 0..firsts.len() {
+                hist_cases.push((kind, f));
+            }
+        }
+        for p in par_range(ctx.threads, hist_cases.len() as u64, 1, Stats::new, |st, i| {
+            let (kind, f) = hist_cases[i as usize];
+            let case = json!({"section": "two-sends-one-client", "client": kind.name(), "first_exchange": firsts[f].0});
+            st.evaluations += 1;
+            st.traces += 2;
+            st.transitions += 2;
+            st.states.insert(fnv(case.to_string().as_bytes()));
+            st.nontrivial.insert(fnv(case.to_string().as_bytes()));
+            match two_sends(kind, &firsts[f].1, &req0, &resps[1].1) {
+                Ok(()) => st.outcome("second-send-independent"),
+                Err(d) => {
+                    st.outcome("second-send-affected");
+                    st.violate(format!("{}:history:{}", kind.name(), firsts[f].0), format!("{}: {}", case, d), case.clone());
+                }
+            }
+            st.sample(1, || case.clone());
+        }) {
+            s.merge(p);
+        }
+    }
+    rep.section("two-sends-through-one-client", s);
+
     // ---------------- (6) concurrency: N senders, every answer order
     let mut s = Stats::new();
     for n in 2..=tier.pick(3usize, 4usize) {
@@ -496,6 +538,59 @@ fn cpu_time() -> Duration {
     let f: Vec<&str> = s.rsplit(')').next().unwrap_or("").split_whitespace().collect();
     let ticks: u64 = f.get(11).and_then(|x| x.parse().ok()).unwrap_or(0) + f.get(12).and_then(|x| x.parse().ok()).unwrap_or(0);
     Duration::from_millis(ticks * 10)
+}
+
+/// two sequential sends through one client value against one listener: whatever happened to the first
+/// exchange, the second must be one fresh POST that gets exactly its own response
+fn two_sends(kind: ClientKind, first: &Script, base: &Msg, second_resp: &Msg) -> Result<(), String> {
+    let l = Listener::bind();
+    let port = l.port;
+    let first = first.clone();
+    let second = Script::ok(r1::encode(second_resp));
+    let server = std::thread::spawn(move || {
+        let mut seen = vec![];
+        for script in [first, second] {
+            match l.accept(Duration::from_secs(10)) {
+                Some(s) => seen.push(serve_plain(s, &script)),
+                None => break,
+            }
+        }
+        let extra = l.pending();
+        (seen, extra)
+    });
+    let uri = format!("http://127.0.0.1:{}/ipp", port);
+    let mk = |id: u32| {
+        let mut m = base.clone();
+        m.request_id = id;
+        with_payload(&m, format!("doc-{}", id).as_bytes(), 0)
+    };
+    let rt = runtime();
+    let (_r1, r2) = match kind {
+        ClientKind::Blocking => {
+            let c = blocking_client(&uri, &Config::default());
+            (finish_blocking(c.send(mk(1))), finish_blocking(c.send(mk(2))))
+        }
+        ClientKind::Async => {
+            let c = async_client(&uri, &Config::default());
+            rt.block_on(async { (finish_async(c.send(mk(1)).await).await, finish_async(c.send(mk(2)).await).await) })
+        }
+    };
+    let (seen, extra) = server.join().map_err(|_| "peer panicked".to_string())?;
+    if seen.len() != 2 {
+        return Err(format!("the peer saw {} connection(s) for two sends", seen.len()));
+    }
+    if extra != 0 {
+        return Err(format!("{} extra connection(s)", extra));
+    }
+    let got = r2.map_err(|e| format!("second send failed: {}", &e[..e.len().min(200)]))?;
+    if let Some(d) = second_resp.canon().diff(&got) {
+        return Err(format!("second send returned a different response: {}", d));
+    }
+    let body = r1::decode(&seen[1].body).map_err(|e| format!("second request malformed: {}", e.0))?;
+    if body.request_id != 2 || body.data != b"doc-2" {
+        return Err(format!("second request carried request-id {} and {} payload bytes", body.request_id, body.data.len()));
+    }
+    Ok(())
 }
 
 fn permutations(v: &mut Vec<usize>, k: usize, out: &mut Vec<Vec<usize>>) {
